@@ -664,11 +664,30 @@ func (r *wpRun) run(b Behaviour, idx int) {
 		r.res.Inconclusive = append(r.res.Inconclusive, b.ID+": "+err.Error())
 		return
 	}
+	// (the observers are goroutines of the harness: on a busy machine they may be behind the store; they are given time to
+	// have seen one write event per call that returned successfully before anything is counted)
+	expectWrites := 0
+	for id, ok := range r.returned {
+		if ok && r.retErr[id] == nil {
+			expectWrites++
+		}
+	}
+	h.WaitFor(8*time.Second, func() bool {
+		r.mu.Lock()
+		defer r.mu.Unlock()
+		n := 0
+		for _, d := range r.fastObs {
+			if len(d) > 6 && d[:6] == "write:" {
+				n++
+			}
+		}
+		return n >= expectWrites
+	})
 	// the slow subscriber must have received exactly the emitted sequence
 	r.mu.Lock()
 	nfast := len(r.fastObs)
 	r.mu.Unlock()
-	h.WaitFor(3*time.Second, func() bool { r.mu.Lock(); defer r.mu.Unlock(); return len(r.slowObs) >= nfast })
+	h.WaitFor(12*time.Second, func() bool { r.mu.Lock(); defer r.mu.Unlock(); return len(r.slowObs) >= nfast })
 	time.Sleep(2 * time.Millisecond)
 	r.mu.Lock()
 	if fmt.Sprint(r.slowObs) != fmt.Sprint(r.fastObs) {
